@@ -18,6 +18,10 @@ func runC02(c *Ctx) {
 		n = 16000000
 	}
 	c.Cases(n, func(idx int64, r *Rng) {
+		if idx%401 == 400 {
+			runLongBattle(c, idx, r)
+			return
+		}
 		bc := genBattle(r, 4, r.Chance(1, 3))
 		if idx == 0 {
 			// pinned witness of a repaired defect (known_findings.txt): entry point wraps past the last address
@@ -91,7 +95,7 @@ func runC02(c *Ctx) {
 				c.Violate("C02:state:"+strings.SplitN(d, ":", 2)[0], fmt.Sprintf("after cycle %d: %s", cycles, d), bc.describe())
 				return
 			}
-			if inv := g.VerifInvariants(s); len(inv) > 0 {
+			if inv := verifInvariants(s); len(inv) > 0 {
 				c.Violate("C02:invariant", fmt.Sprintf("after cycle %d: %v", cycles, inv), bc.describe())
 				return
 			}
